@@ -63,6 +63,12 @@ pub fn run_groups(out: &mut Out, groups: &[Vec<Object>], sig_tok: &dyn Fn(&Objec
 
 /// `kind` = "dir": one signal per group (the line then reads `dir <sig> <sig> … => <commands after each>`)
 pub fn run_groups_as(out: &mut Out, kind: &str, groups: &[Vec<Object>], sig_tok: &dyn Fn(&Object) -> String, nontrivial: bool) {
+    run_groups_paused(out, kind, groups, sig_tok, nontrivial, &[])
+}
+
+/// `pauses` = (index of the group AFTER which nothing happens, milliseconds of REAL time): what the director decides depends
+/// on the latest readings, not on how long ago they were taken.
+pub fn run_groups_paused(out: &mut Out, kind: &str, groups: &[Vec<Object>], sig_tok: &dyn Fn(&Object) -> String, nontrivial: bool, pauses: &[(usize, u64)]) {
     let rt = tokio::runtime::Builder::new_current_thread().enable_all().build().unwrap();
     let shared = Arc::new(Shared::default());
     let outs: Option<Vec<String>> = guarded(std::panic::AssertUnwindSafe(|| {
@@ -74,13 +80,19 @@ pub fn run_groups_as(out: &mut Out, kind: &str, groups: &[Vec<Object>], sig_tok:
             settle().await;
             let tx = shared.signal_tx.lock().unwrap().clone().expect("publisher got the signal sender");
             let mut outs = vec![];
-            for g in groups {
+            for (gi, g) in groups.iter().enumerate() {
                 for s in g {
                     let _ = tx.send(s.clone());
                 }
                 settle().await;
                 let got: Vec<String> = std::mem::take(&mut *shared.handled.lock().unwrap());
                 outs.push(if got.is_empty() { "-".to_string() } else { got.join(";") });
+                for (k, ms) in pauses {
+                    if *k == gi {
+                        tokio::time::sleep(Duration::from_millis(*ms)).await;
+                        settle().await;
+                    }
+                }
             }
             outs
         })
